@@ -804,7 +804,6 @@ func VerifC02RestoreFeeOrder() {
 	if !c02k3FeeOrder(idx) {
 		panic("c02k3: fee-order shape list out of date")
 	}
-	vReach("fee-order-shape")
 	c02k3Run(idx)
 }
 
